@@ -25,10 +25,11 @@ for p in props:
         'engine': 'rocq+correspondence',
         'level_claimed': {
             'category': 'proof',
-            'text': s.get('level_text', 'Theorems about an executable Gallina model of the anchored code, proved in Coq 8.16 for every client program, thread count and schedule; the model is tied to /repo on every run by a step-by-step trace correspondence against the unmodified headers under an instrumented std.'),
+            'text': s.get('level_text', '%d theorems (%s%s) about executable Gallina models (components: %s) of the anchored code, proved in Coq 8.16 for every client program, thread count, schedule and fault plan the property quantifies over, each closed under the global context (Print Assumptions re-run on every check); the models are tied to /repo on every run by a step-by-step trace correspondence against the unmodified headers compiled over an instrumented std, and implementation-side monitors of the property search for a concrete failing input when a proof or the correspondence breaks.'
+                           % (len(s['theorems']), ', '.join(s['theorems'][:6]), ', ...' if len(s['theorems']) > 6 else '', ', '.join(s['components']))),
             'design_ref': s.get('design_ref', 'DESIGN.md section 5, ' + pid),
         },
-        'level_note': s.get('level_note', 'Trusted: Coq kernel; hand-written model of the std primitives (DESIGN 2.3); the correspondence harness (differential testing, not proof); ' + (s.get('partial') or 'no clause is carried only partially')),
+        'level_note': s.get('level_note', 'Trusted: Coq 8.16.1 kernel (no axioms); hand-written models of the std primitives (DESIGN 2.3) and of the code (tied by correspondence = differential testing, not proof); extraction with ExtrOcamlBasic only; ' + '; '.join(s.get('trusted_base', [])) + '. Carried only partially / modelled: ' + (s.get('partial') or 'nothing beyond the common trusted base (DESIGN section 7)')),
         'technique': s.get('technique', 'inductive invariant over an interleaving semantics in Coq + model/implementation trace correspondence'),
     })
 man = {
